@@ -168,7 +168,7 @@ JudgeWith(r, facts) ==
                               IF w.q # {} THEN Need(w.q) ELSE [v |-> "ok", dev |-> "", exp |-> w.v]
       [] r.kind = "priv"   -> JudgePriv(O, r)
       [] r.kind = "pub"    -> JudgePub(O, r)
-      [] r.kind = "addr"   -> JudgeAddr(O, IF r.route = "hdkey"
+      [] r.kind = "addr"   -> JudgeAddr(O, IF r.route \in {"hdkey", "address-wt", "input-wt"}
                                                THEN [r EXCEPT !.t = WitnessTypeAddr(r.wt).t, !.e = WitnessTypeAddr(r.wt).e]
                                                ELSE r)
       [] r.kind = "hist"   -> JudgeHist(O, r)
